@@ -25,7 +25,13 @@ func jsonRoundTrip(r *ev.Run, c *ev.Case, a *message.Attributes) {
 	r.Eval(1)
 	var text string
 	var err error
+	given := js(a)
 	if r.Guard(c, "Marshal", rec{Attrs: a, What: "json"}, func() { text, err = a.Marshal() }) {
+		return
+	}
+	if now := js(a); now != given {
+		// the round trip is judged against the value the caller passed, not against what encoding left of it
+		r.Violation(c, "encoder-changes-the-value-it-was-given:json", fmt.Sprintf("before Marshal: %s\nafter Marshal:  %s", given, now), rec{Attrs: a, What: "json"})
 		return
 	}
 	miss := msgref.RequiredMissing(a)
@@ -78,6 +84,7 @@ func legacyRoundTrip(r *ev.Run, c *ev.Case, a *message.Attributes, direct bool) 
 	if direct {
 		what = "legacy-direct"
 	}
+	given := js(a)
 	if r.Guard(c, "Marshal(legacy)", rec{Attrs: a, What: what}, func() {
 		if direct {
 			text, err = a.MarshalLegacy()
@@ -85,6 +92,10 @@ func legacyRoundTrip(r *ev.Run, c *ev.Case, a *message.Attributes, direct bool) 
 			text, err = a.Marshal()
 		}
 	}) {
+		return
+	}
+	if now := js(a); now != given {
+		r.Violation(c, "encoder-changes-the-value-it-was-given:"+what, fmt.Sprintf("before: %s\nafter:  %s", given, now), rec{Attrs: a, What: what})
 		return
 	}
 	miss := msgref.RequiredMissing(a)
